@@ -1,8 +1,9 @@
 import XlModel.Cfb
+import XlModel.Crypt
 import XlModel.Generated.Facts
 import XlModel.Drv.Util
 namespace XlModel.Drv.C13
-open XlModel XlModel.Cfb XlModel.Drv
+open XlModel XlModel.Cfb XlModel.Crypt XlModel.Drv
 
 /-! Line protocol of C13 (see harness/cmd/vh/c13.go):
   loc <n> <size>*          (*cfb).prepare + locate on streams of these sizes
@@ -112,6 +113,28 @@ def step (w : List String) : String :=
           | .panic => "PANIC"
         s!"info=248 pkg={pkg.length} total={(render img).length} dec={d}"
     | _, _, _ => "bad-op"
+  | ["agile", n, _k] =>
+    match n.toNat? with
+    | some S =>
+      let N := pad16 S
+      match decryptPackageSegs (N + Facts.C13.packageOffset) with
+      | .err => "err"
+      | .panic => "PANIC"
+      | .ok segs =>
+        let good := match goodPrefix 0 segs (specSegs N) with
+          | none => "full"
+          | some g => if g < S then toString g else "full"
+        s!"out={outLen segs} good={good}"
+    | none => "bad-op"
+  | ["u16", pw] =>
+    match unhexS pw with
+    | some bs =>
+      match String.fromUTF8? (ByteArray.mk (bs.map (fun c => UInt8.ofNat c.toNat)).toArray) with
+      | some str =>
+        let out := utf16le str.toList
+        "ok " ++ hexS (out.map Char.ofNat)
+      | none => "invalid"
+    | none => "bad-op"
   | _ => "bad-op"
 
 def run : IO Unit := runStateless step
